@@ -83,6 +83,7 @@ void fiber_manager_yield(fiber_manager_t* m) {
   G.yields++;
   /* parked; the manager set the marker after the switch; a raiser took me (exchange: RAISED), possibly reset the signal, woke me; others re-raised */
   ME.scratch = FIBER_SIGNAL_READY_TO_WAKE; ME.state = FIBER_STATE_RUNNING; W = verif_bool() ? RAISEDF : 0;
+  VM0.set_wait_location = 0; VM0.set_wait_value = 0;   /* maintenance consumed the deferred write */
   spec_snap();
 }
 static void init_any(int waiter) {
@@ -99,6 +100,7 @@ void h_wait(void) {
   VASSERT(!G.yield_bad && ((G.saw_raised && !G.registered && G.yields == 0) || (G.registered && G.yields == 1 && ME.scratch == 0)),
           "H: C11 wait returns only after a raise: it saw RAISED and did not sleep, or it registered, parked exactly once (WAITING, cleared marker handed to the manager) and was woken; marker cleared afterwards");
   VASSERT(W != &ME, "H: C11 wait does not leave itself registered");
+  VASSERT(VM0.set_wait_location == 0, "H: C11 wait leaves no deferred marker write armed when it returns (armed without a switch it would fire at an unrelated later switch and overwrite scratch, the multi channel's waiter link)");
   VCANARY("wait can return");
 }
 void h_raise(void) {
@@ -109,3 +111,10 @@ void h_raise(void) {
   VCANARY("raise can return");
 }
 fiber_signal_t S;
+/* init: from ANY memory content the signal starts not raised with no waiter */
+void h_init(void) {
+  static fiber_signal_t X; memset(&X, (int)verif_u64(), sizeof(X));
+  fiber_signal_init(&X);
+  VASSERT(X.waiter == (fiber_t*)FIBER_SIGNAL_NO_WAITER, "H: C11 signal init: no waiter, not raised, whatever the memory held");
+  VCANARY("signal init can return");
+}
